@@ -1,7 +1,7 @@
 (* Property C01 — longest match wins; ties broken by priority (maximal munch).
    This file contains only the final statement; the proof is in Engine/SpecProofs.v. *)
 From Coq Require Import List NArith.
-From LogosV Require Import Engine.Model Engine.Cert Engine.CertProofs Engine.SpecProofs Engine.StopProofs Engine.LexProofs.
+From LogosV Require Import Engine.Model Engine.Cert Engine.GraphBuild Engine.CertProofs Engine.SpecProofs Engine.StopProofs Engine.LexProofs Engine.BuildProofs Engine.GsimProofs Engine.ByteClass Engine.ByteClassProofs.
 Local Open Scope N_scope.
 
 (* For every DFA d and graph g related by a valid certificate, every input w and every attempt
@@ -24,3 +24,43 @@ Theorem C01_stream_eq_spec : forall d g V R D,
   forall act fb (w : list byte), bytes_ok w ->
   lex_all (attempt_ref g) act fb w false = lex_all (attempt_spec d (lv_of R)) act fb w false.
 Proof. exact lex_ref_eq_spec. Qed.
+
+(* The graph construction itself (Graph::new up to de-duplication, modelled by [build] in
+   Engine/GraphBuild.v: winner per state, early accepts, removal of late accepts, pruning): for EVERY
+   raw DFA meeting the decidable side conditions [build_side], the generated code's attempt on the
+   constructed graph records the DFA-level maximal munch — no per-definition certificate involved. *)
+Theorem C01_construction_correct : forall d,
+  build_side d = true ->
+  forall start rest, bytes_ok rest -> rest <> nil ->
+  exists off, attempt_ref (build d) false start rest = Acted (scan d (d_start d) rest start None) off.
+Proof. exact build_attempt_correct. Qed.
+
+(* ... and for the graph g that the real Graph::new produced (de-duplicated, renumbered), whenever the
+   bisimulation checker relates it to the modelled construction on the captured raw DFA. *)
+Theorem C01_maximal_munch_built : forall d g R,
+  build_side d = true -> gsim_ok (build d) g R = true ->
+  forall (w : list byte) (start : N), bytes_ok w -> start < N.of_nat (length w) ->
+  exists c off, attempt_ref g false start (skipn (N.to_nat start) w) = Acted c off /\
+                MaximalMunch d (skipn (N.to_nat start) w) start c.
+Proof. exact maximal_munch_built. Qed.
+
+(* either graph may stand for the other in every walk of the generated code, both modes *)
+Theorem C01_bisimilar_graphs_agree : forall g1 g2 R,
+  gsim_ok g1 g2 R = true ->
+  forall isprefix start hops rest, bytes_ok rest ->
+  walk g1 isprefix start hops rest (g_root g1) start None = walk g2 isprefix start hops rest (g_root g2) start None.
+Proof. exact gsim_attempt. Qed.
+
+(* The byte classes on the edges (ByteClass in graph/mod.rs): merging two edges that de-duplication
+   folds gives exactly the union, in canonical form, and the condition fork.rs renders for a class
+   (range comparisons with isolated exceptions, or the look-up table above two comparisons) holds on
+   exactly the bytes of the class. *)
+Theorem C01_merged_class_is_union : forall a b x, byte_ok x ->
+  in_ranges x (merge a b) = orb (in_ranges x a) (in_ranges x b).
+Proof. exact merge_sem. Qed.
+
+Theorem C01_merged_class_canonical : forall a b, canonical (merge a b) = true.
+Proof. exact merge_canonical. Qed.
+
+Theorem C01_edge_condition_exact : forall rs b, ranges_ok rs -> byte_ok b -> cond_eval rs b = in_ranges b rs.
+Proof. exact cond_eval_sem. Qed.
